@@ -27,6 +27,9 @@ def run(ctx, res):
     res.rule = ("random DAGs (incl. empty jobs, several components, more components than hosts and fewer) x feasible clusters x delivery modes "
                 "fifo/batchy (in order) and shuffle/newest (arbitrary reordering); non-trivial = >= 2 tasks and >= 6 steps; distinct by (job, cluster, mode)")
     sc.run_family(ctx, res, "C03", ctx.n(280, 6000), gen=gen_c03, max_tasks=ctx.n(10, 14))
+    if ctx.tier == "thorough":
+        sc.run_family(ctx, res, "C03", 0, cases=sc.exhaustive_cases(ctx.sub_rng("exh")))
+        res.extra["exhaustive_small_scope"] = "all jobs with <= 3 tasks (1-2 outputs, <= 2 inputs) x 4 cluster shapes x 3 requested-output sets x 2 delivery modes"
 
 
 def search(ctx, res):
